@@ -208,6 +208,12 @@ pub fn oracle_c12(c: &TrCase, t: &Trained, bytes: &[u8], fails: &mut Vec<(String
                                 return Err(format!("token {surf:?} got {g:?} in category {j}, where no tag was observed"));
                             }
                         }
+                        // categories beyond those the token was ever seen with: "a token never seen [with a tag there] gets none"
+                        for (j, g) in got.iter().enumerate().skip(cats.len()) {
+                            if g.is_some() {
+                                return Err(format!("token {surf:?} of {text:?} got {g:?} in category {j}; it was only ever seen with {} categor{}", cats.len(), if cats.len() == 1 { "y" } else { "ies" }));
+                            }
+                        }
                         // stored scores
                         if let Some(tm) = by_token.get(surf) {
                             let feats = brute_tag_features(c, &chars, tok.start(), tok.end());
